@@ -418,3 +418,52 @@ func TestAligned(t *testing.T) {
 		rec.Sample("aligned:"+kind, map[string]any{"renderer": r.name, "n": n, "kind": kind, "triangles": len(ts)})
 	})
 }
+
+// ---------------------------------------------------------------------------
+// all resolutions: a sparse scene at high cell counts (octree renderer; the uniform renderer
+// would need ~10^9 evaluations there)
+
+type capsule struct {
+	a, b v3.Vec
+	r    float64
+	bb   sdf.Box3
+}
+
+func (c capsule) Evaluate(p v3.Vec) float64 {
+	ab, ap := c.b.Sub(c.a), p.Sub(c.a)
+	t := math.Max(0, math.Min(1, ap.Dot(ab)/ab.Length2()))
+	return p.Sub(c.a.Add(ab.MulScalar(t))).Length() - c.r
+}
+func (c capsule) BoundingBox() sdf.Box3 { return c.bb }
+
+func TestHighResolution(t *testing.T) {
+	rec := ev.Get()
+	rapid.Check(t, func(t *rapid.T) {
+		cells := rapid.IntRange(100, ev.Pick(900, 1400)).Draw(t, "cells")
+		L := 100.0
+		h := L / float64(cells)
+		dir := v3.Vec{X: g.F(-1, 1).Draw(t, "dx"), Y: g.F(-1, 1).Draw(t, "dy"), Z: g.F(-1, 1).Draw(t, "dz")}
+		if rapid.IntRange(0, 2).Draw(t, "axis-aligned") == 0 {
+			dir = [3]v3.Vec{{X: 1}, {Y: 1}, {Z: 1}}[rapid.IntRange(0, 2).Draw(t, "axis")]
+		}
+		if dir.Length() < 0.1 {
+			dir = v3.Vec{Z: 1}
+		}
+		dir = dir.Normalize()
+		r := h * g.F(1.2, 3).Draw(t, "radius-in-cells")
+		c := v3.Vec{X: g.F(-2, 2).Draw(t, "cx"), Y: g.F(-2, 2).Draw(t, "cy"), Z: g.F(-2, 2).Draw(t, "cz")}
+		half := math.Min(0.45*L/math.Max(math.Abs(dir.X), math.Max(math.Abs(dir.Y), math.Abs(dir.Z))), 0.8*L)
+		half = math.Min(half, 0.45*L-r-3)
+		s := capsule{a: c.Sub(dir.MulScalar(half)), b: c.Add(dir.MulScalar(half)), r: r, bb: sdf.Box3{Min: v3.Vec{X: -L / 2, Y: -L / 2, Z: -L / 2}, Max: v3.Vec{X: L / 2, Y: L / 2, Z: L / 2}}}
+		ts := render.ToTriangles(s, render.NewMarchingCubesOctree(cells))
+		e := 0.01*L + h
+		checkMesh(rec, t, func(key, msg string) {
+			rec.Violation(t, key, "octree renderer, %d cells, capsule %v..%v radius %v in a %v box: %s", cells, s.a, s.b, r, L, msg)
+		}, "octree", ts, h, true, s.bb.Min.SubScalar(e), s.bb.Max.AddScalar(L))
+		if len(ts) == 0 {
+			rec.Violation(t, "MarchingCubes:octree:empty-mesh", "octree renderer, %d cells, capsule radius %v: no triangles", cells, r)
+		}
+		rec.Case(len(ts) > 0, ev.Key("highres", cells, s.a, s.b, r), "highres:octree")
+		rec.Sample("highres", map[string]any{"cells": cells, "a": s.a, "b": s.b, "radius": r, "triangles": len(ts)})
+	})
+}
